@@ -87,10 +87,11 @@ let run mode file =
       if fpre <> fpost then report want04 "PROPFAIL" "commit_keeps_content" (Printf.sprintf "%d keys after" (List.length fpost)) (Printf.sprintf "%d keys before" (List.length fpre));
       if not (Tree.no_empty fuel true p) then report want04 "PROPFAIL" "no_emptied_page_after_commit" "a committed tree has an empty non-root page" "none";
       if int_of_nat (Tree.depth fuel t) >= 3 then flag "depth3+" else if int_of_nat (Tree.depth fuel t) = 2 then flag "depth2";
-      if !inline then flag "inline-after"
-      else begin
-        match Tree.commit_tree !ps !fill fuel t !order with
-        | Base.Ok (mt, mevs) ->
+      begin
+        match Tree.commit_bucket !ps !fill fuel t !order with
+        | Base.Ok ((mt, mevs), minl) ->
+          if minl then flag "inline-after";
+          if minl <> !inline then report want04 "MISMATCH" "inline_decision" (string_of_bool !inline) (string_of_bool minl);
           let d = diff "" mt p in
           if d <> "" then report want04 "MISMATCH" "tree_after_commit" d "see impl" ;
           (* events: everything the commit did to the freelist, minus the root bucket's own leaf (free + allocate 1) and the freelist page (free + allocate) at the end *)
